@@ -29,7 +29,7 @@ from .. import q
 from ..cfg import must_facts, explore
 from ..model import AnalysisError
 from ..mutate import mutate, remove_stmts, replace_expr, replace_stmt, parse_stmt, parse_expr
-from ..x_secflow import Reach, Escapes, is_unpack, strip_wrappers, same, parsed_facts, fact_geq0, equality_fact
+from ..x_secflow import Reach, Escapes, is_unpack, strip_wrappers, same, parsed_facts, fact_geq0, equality_fact, absent_or_unknown
 
 TECHNIQUE = "path-sensitive must-pass-through on the CFG of _execute with exhaustive evaluation of the method predicate, guard dominance + reaching-definition expansion in check_xsrf_cookie, exception-escape analysis, issuer/decoder role tables"
 EXPLANATION = (
@@ -74,6 +74,17 @@ def is_setting_test(e):
         and (q.dotted(e.func.value) or "").endswith("settings")
 
 
+def request_controlled(e):
+    """The condition reads data the requester controls (headers, body, arguments, cookies)."""
+    for x in ast.walk(e):
+        d = q.dotted(x) if isinstance(x, ast.Attribute) else None
+        if d and d.startswith("self.request.") and not d.startswith("self.request.method"):
+            return True
+        if isinstance(x, ast.Call) and is_self_call(x, x.func.attr if isinstance(x.func, ast.Attribute) else "") and x.func.attr in ("get_argument", "get_arguments", "get_body_argument", "get_query_argument", "get_cookie"):
+            return True
+    return False
+
+
 def check_gate(ck, ex):
     rd = Reach(ex)
     cfg = ex.cfg
@@ -113,20 +124,38 @@ def check_gate(ck, ex):
     ck.floor("C24.gate", len(checks), 1, "check_xsrf_cookie() call sites in _execute")
     check_ids = {n.id for n in checks}
 
-    def alias_free(n):
-        """The test with locals that merely alias an attribute path or the setting lookup substituted."""
+    def is_pure_pred(e):
+        for x in ast.walk(e):
+            if isinstance(x, (ast.BoolOp, ast.UnaryOp, ast.Compare, ast.Constant, ast.Tuple, ast.List, ast.Set, ast.Name, ast.Attribute, ast.expr_context, ast.boolop, ast.unaryop, ast.cmpop)):
+                continue
+            if isinstance(x, ast.Call) and (is_setting_test(x) or (isinstance(x.func, ast.Attribute) and x.func.attr in ("lower", "upper") and not x.args and q.dotted(x.func.value) is not None)):
+                continue
+            return False
+        return True
+
+    def alias_free(n, e=None, depth=0):
+        """The test with locals that merely name an attribute path, the setting lookup or a
+        side-effect-free predicate over them (named booleans) substituted."""
         import copy
 
-        e = copy.deepcopy(n.ast)
+        e = copy.deepcopy(n.ast if e is None else e)
 
         class T(ast.NodeTransformer):
             def visit_Name(self, node):
                 d = rd.unique(n, node.id)
-                if d is not None and d.kind == "assign" and d.value is not None and (q.dotted(d.value) is not None or is_setting_test(d.value)) and isinstance(node.ctx, ast.Load):
-                    return copy.deepcopy(d.value)
+                if d is not None and d.kind == "assign" and d.value is not None and isinstance(node.ctx, ast.Load) and depth < 6 and is_pure_pred(d.value):
+                    return alias_free(d.node, d.value, depth + 1)
                 return node
 
         return T().visit(e)
+
+    # boolean flag locals (every definition is a True/False constant): tracked path-sensitively
+    flag_defs = {}
+    for d in rd.defs:
+        if d.kind == "param" or d.path in ("self",):
+            continue
+        flag_defs.setdefault(d.path, []).append(d)
+    flags = {p_ for p_, ds in flag_defs.items() if "." not in p_ and all(d.kind == "assign" and isinstance(d.value, ast.Constant) and isinstance(d.value.value, bool) for d in ds)}
 
     def case_folded(e):
         """``self.request.method.lower()/.upper()`` -> pseudo variables so the predicate stays evaluable."""
@@ -142,20 +171,35 @@ def check_gate(ck, ex):
         return T().visit(copy.deepcopy(e))
 
     def transfer(n, val):
-        checked, methods, setting = val
+        checked, methods, setting, fl = val
         if n.id in check_ids:
             checked = True
-        return (checked, methods, setting)
+        if flags and n.kind == "stmt" and isinstance(n.ast, (ast.Assign, ast.AnnAssign)):
+            for p_ in q.assigned_paths(n.ast) & flags:
+                fl = frozenset({(k, v) for k, v in fl if k != p_} | {(p_, n.ast.value.value)})
+        return (checked, methods, setting, fl)
+
+    recognised_tests = set()
 
     def edge(n, kind, val):
-        checked, methods, setting = val
+        checked, methods, setting, fl = val
         if n.kind == "test" and kind in ("true", "false"):
+            if isinstance(n.ast, ast.Name) and n.ast.id in flags:
+                recognised_tests.add(n.id)
+                known = dict(fl).get(n.ast.id)
+                if known is not None and known != (kind == "true"):
+                    return None
+                return (checked, methods, setting, frozenset({(k, v) for k, v in fl if k != n.ast.id} | {(n.ast.id, kind == "true")}))
             e = alias_free(n)
             if is_setting_test(e):
+                recognised_tests.add(n.id)
                 setting = kind == "true"
             elif any(isinstance(x, ast.Constant) and x.value == "xsrf_cookies" for x in ast.walk(e)):
                 raise AnalysisError("_execute: test of the xsrf_cookies setting in an unknown shape: %s" % q.unparse(e)[:80])
+            elif request_controlled(e) and "self.request.method" not in q.unparse(e):
+                recognised_tests.add(n.id)  # the requester chooses this branch: both edges are possible for every method
             elif "self.request.method" in q.unparse(e):
+                recognised_tests.add(n.id)
                 keep = set()
                 e = case_folded(e)
                 for m in methods:
@@ -168,14 +212,22 @@ def check_gate(ck, ex):
                 if not keep:
                     return None
                 methods = frozenset(keep)
-        return (checked, methods, setting)
+        return (checked, methods, setting, fl)
 
-    seen = explore(cfg, (False, universe, None), transfer, lambda t: False, edge_transfer=edge, exc_effect=False)
+    seen = explore(cfg, (False, universe, None, frozenset()), transfer, lambda t: False, edge_transfer=edge, exc_effect=False)
+    # every test the check call is control-dependent on must be one the exploration understood;
+    # otherwise an "unchecked" path may be an artefact of a condition the rule cannot read
+    from ..x_secflow import guarding_tests
+
+    for cn in checks:
+        for t, _kind in guarding_tests(cfg, cn):
+            if t.id not in recognised_tests:
+                raise AnalysisError("_execute: check_xsrf_cookie() depends on a condition the rule does not understand: %s" % q.unparse(t.ast)[:80])
     for n, what in governed:
         states = seen.get(n.id, set())
         ck.need(states, "_execute: governed site %s unreachable in exploration" % what)
         bad = set()
-        for _f, (checked, methods, setting) in states:
+        for _f, (checked, methods, setting, _fl) in states:
             if checked or setting is False:
                 continue
             bad |= set(methods) - SAFE_METHODS
@@ -238,6 +290,22 @@ def check_check(ck, chk, raw, dec):
                 cmpf = (tx, ty, text)
             elif partial is None and any(is_self_call(z, dec.name) for z in ast.walk(x)) and any(is_self_call(z, raw.name) for z in ast.walk(y)):
                 partial = text
+    mentions_dec = lambda E: any(is_self_call(z, dec.name) for z in ast.walk(E))
+    mentions_raw = lambda E: any(is_self_call(z, raw.name) for z in ast.walk(E))
+    if cmpf is None and partial is None:
+        understood = set()
+        for n in cfg.stmt_nodes():
+            from ..x_secflow import node_exprs
+
+            for e in node_exprs(n):
+                E = rd.expand(e, n)
+                pr = E.args if isinstance(E, ast.Call) and q.call_attr(E) == "compare_digest" and len(E.args) == 2 else None
+                eqn = equality_fact(E, True)
+                if pr is None and eqn:
+                    pr = (eqn[0], eqn[1])
+                if pr and ((token_pos(pr[0], dec.name) and token_pos(pr[1], raw.name)) or (token_pos(pr[1], dec.name) and token_pos(pr[0], raw.name))):
+                    understood.add(n.id)  # the whole-value comparison itself: if it does not hold at the exit, a path avoids its success edge
+        absent_or_unknown(rd, at, lambda E: mentions_dec(E) and mentions_raw(E), understood, "the token comparison")
     ck.ob("C24.check-accept", chk, chk.node, cmpf is not None,
           "normal return dominated by the success of a whole-value comparison between the decoded request token and the cookie's token%s" % (": " + cmpf[2] if cmpf else ("; found only a comparison of derived parts: " + partial if partial else "")),
           construct="exit: token comparison")
@@ -265,16 +333,40 @@ def check_check(ck, chk, raw, dec):
                 a = atoms[k]
                 if c > 0 and isinstance(a, ast.Call) and isinstance(a.func, ast.Name) and a.func.id == "len" and token_pos(a.args[0], dec.name) and (const < 0 or (strict and const == 0)):
                     tok = text
+    if tok is None:
+        insufficient = set()
+        for n in cfg.stmt_nodes(lambda n: n.kind == "test"):
+            E = rd.expand(n.ast, n)
+            if isinstance(E, ast.Compare) and len(E.ops) == 1 and isinstance(E.ops[0], (ast.Is, ast.IsNot)) and isinstance(E.comparators[0], ast.Constant) and E.comparators[0].value is None:
+                insufficient.add(n.id)  # understood: a None test does not exclude the empty token
+        absent_or_unknown(rd, at, lambda E: mentions_dec(E) and not mentions_raw(E) and not is_self_call(strip_wrappers(E), dec.name) and token_pos(E, dec.name) is None, insufficient, "the non-empty test of the decoded token")
     ck.ob("C24.check-accept", chk, chk.node, tok is not None, "normal return dominated by 'decoded request token is non-empty'%s" % (": " + tok if tok else ""), construct="exit: non-empty token")
-    # sources of the request token
-    ck.need(len(call_dec.args) == 1, "_decode_xsrf_token call with unexpected arguments")
-    src = call_dec.args[0]
-    ops = q.split_disj(src)
-    kinds = [classify_source(o) for o in ops]
-    for o, k in zip(ops, kinds):
-        ck.ob("C24.token-source", chk, o, k is not None, "request token is read only from the _xsrf form field or the X-XSRFToken / X-CSRFToken headers (%s)" % (k or q.unparse(o)[:60]))
+    # sources of the request token: every expression that can reach the decoder's argument
+    dec_calls = cfg.find(lambda x: is_self_call(x, dec.name))
+    ck.need(len(dec_calls) >= 1 and all(len(c.args) == 1 for _n, c in dec_calls), "_decode_xsrf_token call with unexpected arguments")
+
+    def alts(e, node, depth=0):
+        if isinstance(e, ast.BoolOp) and isinstance(e.op, ast.Or):
+            return [a for v in e.values for a in alts(v, node, depth)]
+        if isinstance(e, ast.Name) and depth < 8:
+            ds = rd.defs_at(node, e.id)
+            if ds and all(d.kind == "assign" and d.value is not None for d in ds):
+                return [a for d in ds for a in alts(d.value, d.node, depth + 1)]
+        return [(rd.expand(e, node), e)]
+
+    ops = [a for n_, c in dec_calls for a in alts(c.args[0], n_)]
+    kinds = []
+    for E, o in ops:
+        k = classify_source(E)
+        if k is None:
+            foreign = isinstance(E, ast.Constant) or any(is_self_call(z, nm) for z in ast.walk(E) for nm in ("get_cookie", "get_signed_cookie", "get_secure_cookie")) \
+                or any((q.dotted(z) or "") in ("self.cookies", "self.request.cookies", "self.xsrf_token", "self._xsrf_token") for z in ast.walk(E) if isinstance(z, ast.Attribute))
+            if not foreign:
+                raise AnalysisError("check_xsrf_cookie: cannot establish where the request token %s comes from" % q.unparse(E)[:80])
+        kinds.append(k)
+        ck.ob("C24.token-source", chk, o, k is not None, "request token is read only from the _xsrf form field or the X-XSRFToken / X-CSRFToken headers (%s)" % (k or q.unparse(E)[:60]))
     want = {"form:_xsrf"} | {"header:" + h for h in HEADER_SOURCES}
-    ck.ob("C24.token-source", chk, chk.node, want <= set(kinds), "all three documented carriers are consulted (found %s)" % sorted(k for k in kinds if k), construct="carriers")
+    ck.ob("C24.token-source", chk, chk.node, want <= set(kinds), "all three documented carriers are consulted (found %s)" % sorted(set(k for k in kinds if k)), construct="carriers")
     ck.ob("C24.token-source", chk, chk.node, not call_raw.args and not call_raw.keywords, "the expected token is _get_raw_xsrf_token() of this request", construct="expected token")
     return p1, (n1 or n2)
 
@@ -318,6 +410,8 @@ def check_raises(ck, chk, es):
             n += 1
             r = s.node
             c = r.exc
+            if isinstance(c, ast.Call) and q.dotted(c.func) == "HTTPError" and not (c.args and isinstance(c.args[0], ast.Constant)):
+                raise AnalysisError("check_xsrf_cookie: HTTPError status is not a literal: %s" % q.unparse(c)[:60])
             ok = isinstance(c, ast.Call) and q.dotted(c.func) == "HTTPError" and c.args and isinstance(c.args[0], ast.Constant) and c.args[0].value == 403
             ck.ob("C24.only-403", chk, r, ok, "a rejected token is answered with HTTPError(403)")
         elif s.handler is None:
